@@ -712,6 +712,13 @@ fn thread_check(code: &str, lex: &str, rng: &mut Rng, rounds: usize, out: &mut O
         return Err("the generated module no longer initialises its data through OnceLock + _reconstitute (the modelled first-use path)".to_string());
     }
     let seq: PD = guarded(std::panic::AssertUnwindSafe(|| reconstitute(varint, &gd, &sd))).map_err(|e| format!("_reconstitute panicked: {}", e))?;
+    // parses run in-process here: only grammars on which the LR loop is known to end (no derivation
+    // cycle, no hidden left recursion — on the others the driver and the recoverer's `lr_cactus` need not
+    // return at all, which is C07's subject and finding, not a matter of thread interleavings)
+    if grammar::has_derivation_cycle(seq.grm()) || grammar::has_hidden_left_recursion(seq.grm()) {
+        out.count("threads.skipped_grammar_on_which_the_lr_loop_need_not_end");
+        return Ok(());
+    }
     let mut lexerdef = LRNonStreamingLexerDef::<DefaultLexerTypes<u32>>::from_str(lex).map_err(|_| "lexer text rejected".to_string())?;
     let tm: Vec<(String, u32)> = seq.grm().tokens_map().iter().map(|(k, v)| (k.to_string(), u32::from(*v))).collect();
     {
